@@ -10,6 +10,7 @@ class Digests:
 
     def __init__(self):
         self.ids = {}
+        self.rev = {}
 
     def __call__(self, s):
         if s is None:
@@ -17,7 +18,11 @@ class Digests:
         i = self.ids.get(s)
         if i is None:
             i = self.ids[s] = len(self.ids) + 1
+            self.rev[i] = s
         return i
+
+    def text(self, i):
+        return self.rev.get(i)
 
 
 CFG_IDS = {}
